@@ -529,7 +529,7 @@ func x03One(t *testing.T, run *x03Run) {
 		w.release()
 		memmap, munmap = mmap.Mmap, mmap.Munmap
 	}()
-	s.StepTimeout = 5 * time.Second
+	s.StepTimeout = 30 * time.Second
 	for _, a := range run.Stack {
 		a := a
 		s.Go(a.Name, func() {
